@@ -9,7 +9,7 @@ Pipeline B: trees of fixtures / layout mutations -> production events -> TraceSy
 import json
 import random
 
-from .. import core, progs, ast2deriv
+from .. import lexref, core, progs, ast2deriv
 from .c07 import fixture_sources, layout_mutations
 
 STAT_PRODS = {'Assign', 'CallStat', 'Do', 'While', 'Repeat', 'If', 'ShortIf', 'ForStep', 'ForIn',
@@ -169,6 +169,52 @@ def syn_traces(ctx, sources):
     ctx.sample({'trace': meta[0][0], 'tokens': len(traces[0]['toks']), 'events': len(traces[0]['deriv']), 'verdict': verdicts[0][0]})
 
 
+def _walk_cov(item):
+    """the tree as the library's generic walker (BaseASTWalker, the one build's RequireWalker and the AST writers derive from)
+    walks it: with the default handlers it must reach every token stored anywhere in the tree"""
+    name, src = item
+    from pico8.lua import lua, lexer, parser
+    try:
+        L = lua.Lua.from_lines([src], 8)
+    except Exception:
+        return None
+
+    class Collect(lua.BaseASTWalker):
+        def _walk_token(self, token):
+            yield id(token)
+    got = sorted(Collect(L.tokens, L.root).walk())
+    want = []
+
+    def visit(v):
+        if isinstance(v, parser.Node):
+            for f in v._fields:
+                visit(getattr(v, f))
+        elif isinstance(v, lexer.Token):
+            want.append(id(v))
+        elif isinstance(v, (list, tuple)):
+            for x in v:
+                visit(x)
+    visit(L.root)
+    return (len(want), len(got), sorted(want) == got)
+
+
+def walker_coverage(ctx, sources):
+    res = core.parmap(_walk_cov, sources)
+    n = 0
+    for (name, src), r in zip(sources, res):
+        if r is None:
+            continue
+        n += 1
+        ctx.evaluations += 1
+        if r[2]:
+            ctx.nontrivial += 1
+            ctx.traces += 1
+        else:
+            ctx.violation('walker-skips/%s' % lexref.shape(src[:12]), 'the generic tree walker reaches %d of the %d tokens stored in the tree of %s: %r' % (r[1], r[0], name, src[:60]),
+                          {'kind': 'walker', 'src': list(src)})
+    ctx.notes['walker_coverage_programs'] = n
+
+
 def run(ctx):
     rnd = random.Random(ctx.seed)
     ctx.rule = ('GenProg: all leftmost derivations of the dialect grammar with <= N tokens (modes all / skeleton / expr) and '
@@ -199,6 +245,7 @@ def run(ctx):
         for k, m in enumerate(layout_mutations(src, rnd, 3 if ctx.quick else 10)):
             extra.append(('%s~%d' % (name, k), m))
     syn_traces(ctx, srcs + extra)
+    walker_coverage(ctx, srcs + progs.program_sources(ctx, rnd, 300 if ctx.quick else 3000))
     b = progs.generate(ctx, 'all', 6 if ctx.quick else 7)[-1]
     ctx.sample({'gen': 'GenProg', 'src': progs.render(b, 'spaced').decode('latin1'), 'deriv': b['deriv']})
 
